@@ -14,7 +14,7 @@ func init() {
 	register(&Check{
 		ID:    "C20",
 		Level: "exploration",
-		Rule: "(1) one real directory holding a regular file for EVERY name of <= 4 (thorough 5) chars over {a,b,.} (except . and ..) and two sub-directories whose names also match, x EVERY pattern of <= 5 (thorough 6) chars over {a,b,.,*} with at most 3 stars; (1b) one real directory holding a file for every name of <= 3 chars over {a,1,[,],?,backslash,-,^} x every pattern of <= 4 chars over these and `*` (every character but the star is literal); (1c) a directory with symbolic links to a directory (relative and absolute), to a nested directory, to a regular file and to nothing x 8 file segments x 11 directory segments at depth 1-3, relative and absolute: a link counts as what it points to; (1d) directories with every number of entries 0..300 (thorough 600) and around 512, 768, 1024 on the pattern's route x 7 patterns; (2) a real tree of depth 3 whose directory and file names range over {a,b,ab,ba} x every pattern of 1-3 segments over directory segments {a,b,ab,a*,*b,*a*,b*} and file segments {a,b,ab,a*,*b,a*b,*a*,*,**}, relative and absolute; " +
+		Rule: "(1) one real directory holding a regular file for EVERY name of <= 4 (thorough 5) chars over {a,b,.} (except . and ..) and two sub-directories whose names also match, x EVERY pattern of <= 5 (thorough 6) chars over {a,b,.,*} with at most 3 stars; (1b) one real directory holding a file for every name of <= 3 chars over {a,1,[,],?,backslash,-,^} x every pattern of <= 4 chars over these and `*` (every character but the star is literal); (1c) a directory with symbolic links to a directory (relative and absolute), to a nested directory, to a regular file and to nothing x 8 file segments x 11 directory segments at depth 1-3, relative and absolute: a link counts as what it points to; (1d) directories with every number of entries 0..300 (thorough 600) and around 512, 768, 1024 on the pattern's route x 7 patterns; (1e) six patterns, relative and absolute, asked again after files and directories were added and removed (the answer must be that of a freshly parsed pattern); (2) a real tree of depth 3 whose directory and file names range over {a,b,ab,ba} x every pattern of 1-3 segments over directory segments {a,b,ab,a*,*b,*a*,b*} and file segments {a,b,ab,a*,*b,a*b,*a*,*,**}, relative and absolute; " +
 			"oracle: a reference matcher (`*` = any run within a segment, segments matched one to one) applied to a walk of the tree; the returned list must equal it as a set, without duplicates and without directories; non-trivial = distinct (pattern,tree) pairs whose expected set is non-empty and not everything",
 		Assume: []string{"directory segments made only of stars and `.`/`..` segments are excluded, as the property says"},
 		Budget: map[string]int{"quick": 120, "thorough": 900},
@@ -309,6 +309,52 @@ func runC20(c *Ctx) {
 				c20Compare(c, d, pat, false, want, "sizes")
 			}
 			os.RemoveAll(d)
+		}
+	}
+	// (1e) a parsed pattern asked again after the tree has changed sees the tree as it is now
+	if c.Level("reuse after a change") {
+		for _, pat := range []string{"d/*.txt", "d/f*", "d*/*.txt", "d/s*/x.txt", "d/sub/*", "*.txt"} {
+			for _, abs := range []bool{false, true} {
+				pat, abs := pat, abs
+				if !c.Unit(func() string { return fmt.Sprintf("reuse after a change: %s (absolute=%v)", pat, abs) }) {
+					continue
+				}
+				rd, _ := os.MkdirTemp(root, "reuse-")
+				os.MkdirAll(filepath.Join(rd, "d", "sub"), 0o755)
+				os.WriteFile(filepath.Join(rd, "d", "f1.txt"), []byte("x"), 0o644)
+				os.WriteFile(filepath.Join(rd, "d", "sub", "x.txt"), []byte("x"), 0o644)
+				os.WriteFile(filepath.Join(rd, "top.txt"), []byte("x"), 0o644)
+				arg := pat
+				if abs {
+					arg = rd + "/" + pat
+				}
+				var first, second, fresh []string
+				pi := guard(func() {
+					pp := files.ParsePath(arg)
+					first = pp.GetFileList(rd)
+					os.WriteFile(filepath.Join(rd, "d", "f2.txt"), []byte("x"), 0o644)
+					os.Remove(filepath.Join(rd, "d", "f1.txt"))
+					os.MkdirAll(filepath.Join(rd, "d", "s2"), 0o755)
+					os.WriteFile(filepath.Join(rd, "d", "s2", "x.txt"), []byte("x"), 0o644)
+					os.WriteFile(filepath.Join(rd, "new.txt"), []byte("x"), 0o644)
+					second = pp.GetFileList(rd)
+					fresh = files.ParsePath(arg).GetFileList(rd)
+				})
+				c.Eval(1)
+				c.Nontrivial(1)
+				rec := map[string]any{"kind": "glob", "pattern": pat, "absolute": abs, "tree": "reuse"}
+				if pi != nil {
+					c.Violation("PANIC "+pi.Site, fmt.Sprintf("ParsePath(%q).GetFileList panics: %s", pat, pi.Msg), rec)
+					continue
+				}
+				_ = first
+				sort.Strings(second)
+				sort.Strings(fresh)
+				if strings.Join(second, "\n") != strings.Join(fresh, "\n") {
+					c.Violation("REUSE stale "+shape(pat), fmt.Sprintf("pattern %q (absolute=%v): after files were added and removed the pattern parsed earlier lists %d files, a freshly parsed one %d", pat, abs, len(second), len(fresh)), rec)
+				}
+				os.RemoveAll(rd)
+			}
 		}
 	}
 	// (2) tree
